@@ -13,6 +13,12 @@
     var2 csv <delim> <hdr> <trim> <keep> <oidx> <hook> <typing> <data|ctor> <hexbytes> [D …]
     var2 xrff <hook> <typing> <doc tokens …> [D …]
     old  csv|xrff …                               the same with `guards := false` (code before the fixes)
+    hist <df|prob> <typing> <nsteps> {step} [D …]   a history of calls on one dataframe object (History.lean)
+         step = csv <delim> <hdr> <trim> <keep> <oidx> <hook> <hexbytes>
+              | xrff <hook> <ntokens> <doc tokens …>
+              | file <hexext> <delim> <hdr> <trim> <keep> <oidx> <hook> <hexbytes> <ntokens> <doc tokens …>
+              | clear | clone
+    oldhist …                                     the same with `guards := false`
 
   Numbers: the model is parametric in `is_number` / `stod` / `stoi`.  The driver receives their
   values for the strings of this request in the dictionary `D …` (computed by the C++ harness'
@@ -20,7 +26,7 @@
   the dictionary the answer is `need <hexstr> …` and the caller repeats the request.
   A double is only ever a 64-bit pattern (`F := Nat`).
 -/
-import Vita.C09.Model
+import Vita.C09.History
 import Std.Data.HashMap
 
 namespace Vita.C09.Proto
@@ -332,6 +338,26 @@ def symsStr (df : DF Nat) (syms : List TermSym) : M String := do
   pure (s!"ok S {syms.length}" ++ String.join parts ++
     s!" P {ssetCategories syms} {nvars} {df.classes.length} C {df.cols.length}" ++ String.join cols)
 
+/-- `symsStr` for a history: the examples may be those of a later import with another number of inputs;
+    a variable that asks for an input the example does not have gets the harness' probe value
+    `<out-of-range>` instead of a fault -/
+def symsStrH (df : DF Nat) (syms : List TermSym) : String :=
+  let parts := syms.map (fun s => match s with
+    | .var v =>
+      let vals := (df.examples.take 3).map (fun e =>
+        match evalVar v e with
+        | .ok x => s!" {v.var} {valStr x}"
+        | .error _ => s!" {v.var} s{hex "<out-of-range>".toList}")
+      let cat := match v.category with | some c => toString c | none => "u"
+      s!" v {hex v.name} {cat} {vals.length}" ++ String.join vals
+    | .const name val c =>
+      let cat := match c with | some c => toString c | none => "u"
+      s!" k {hex name} {cat} s{hex val}")
+  let nvars := match df.examples with | [] => 0 | e :: _ => e.input.length
+  let cols := df.cols.map (fun c => s!" {hex c.name} {domNum c.dom} {c.states.length}")
+  s!"ok S {syms.length}" ++ String.join parts ++
+    s!" P {ssetCategories syms} {nvars} {df.classes.length} C {df.cols.length}" ++ String.join cols
+
 def answerVar2 (main : List String) (dict : Dict) : String :=
   match main with
   | ["csv", delim, hdr, trim, keep, oidx, filt, typing, _via, bytes] =>
@@ -365,6 +391,81 @@ def answerVar2 (main : List String) (dict : Dict) : String :=
     | _, _ => "bad-op"
   | _ => "bad-op"
 
+/-! histories (`hist`): the steps are parsed together with the strings the model may ask the oracle about -/
+
+def takeDoc : List String → Option (XDoc × List String)
+  | n :: r => do
+    let n ← n.toNat?
+    if r.length < n then none
+    else do
+      let doc ← parseDoc (r.take n)
+      some (doc, r.drop n)
+  | [] => none
+
+def parseSteps : Nat → List String → Option (List (POp × List Str))
+  | 0, [] => some []
+  | 0, _ => none
+  | n + 1, "csv" :: delim :: hdr :: trim :: keep :: oidx :: filt :: bytes :: r => do
+    let p ← makeParams delim hdr trim keep oidx
+    let f ← makeHook filt
+    let b ← unhex bytes
+    let p := { p with hook := f }
+    let rest ← parseSteps n r
+    some ((.op (.csv p b), csvCells p (splitLines b)) :: rest)
+  | n + 1, "xrff" :: filt :: r => do
+    let f ← makeHook filt
+    let (doc, r') ← takeDoc r
+    let rest ← parseSteps n r'
+    some ((.op (.xrff f doc), docCells f doc) :: rest)
+  | n + 1, "file" :: ext :: delim :: hdr :: trim :: keep :: oidx :: filt :: bytes :: r => do
+    let e ← unhex ext
+    let p ← makeParams delim hdr trim keep oidx
+    let f ← makeHook filt
+    let b ← unhex bytes
+    let p := { p with hook := f }
+    let (doc, r') ← takeDoc r
+    let rest ← parseSteps n r'
+    some ((.op (.file p e b doc), if isXrffExt e then docCells f doc else csvCells p (splitLines b)) :: rest)
+  | n + 1, "clear" :: r => do
+    let rest ← parseSteps n r
+    some ((.op .clear, []) :: rest)
+  | n + 1, "clone" :: r => do
+    let rest ← parseSteps n r
+    some ((.clone, []) :: rest)
+  | _, _ => none
+
+/-- the answers of the steps, each preceded by ` | ` (same text as the harness' `hist`) -/
+def histGo (cfg : Cfg) (o : NumOracle Nat) (prob strong : Bool) : List POp → PSt Nat → String
+  | [], s =>
+    if prob then
+      " | " ++ (match s.syms with
+        | none => "no-import"
+        | some syms => symsStrH s.target syms)
+    else ""
+  | op :: ops, s =>
+    if !prob && !op.isImport && (match op with | .clone => true | _ => false) then " | bad-step"
+    else match op.run cfg o s with
+      | .error e => " | " ++ errStr e
+      | .ok (s', df, ret) =>
+        let valid := match isValid df with | .ok v => v | .error _ => false
+        let d := " | " ++ dump df ret valid
+        if prob && op.isImport && s'.syms.isNone then
+          match s'.setup cfg strong with
+          | .error e => d ++ " | " ++ errStr e
+          | .ok s'' => d ++ histGo cfg o prob strong ops s''
+        else d ++ histGo cfg o prob strong ops s'
+
+def answerHist (cfg : Cfg) (main : List String) (dict : Dict) : String :=
+  match main with
+  | via :: typing :: n :: toks =>
+    match n.toNat? >>= fun n => parseSteps n toks with
+    | none => "bad-op"
+    | some steps =>
+      let ms := missing dict ((steps.flatMap (·.2)).eraseDups)
+      if !ms.isEmpty then needStr ms
+      else "hist" ++ histGo cfg (oracle dict) (via == "prob") (typing == "1") (steps.map (·.1)) {}
+  | _ => "bad-op"
+
 def answer (line : String) : String :=
   let toks := (line.trimAscii.toString.splitOn " ").filter (· != "")
   let (main, dtoks) := splitDict toks
@@ -381,6 +482,8 @@ def answer (line : String) : String :=
     | "file" :: rest => answerFile {} rest dict
     | "var" :: rest => answerVar rest dict
     | "var2" :: rest => answerVar2 rest dict
+    | "hist" :: rest => answerHist {} rest dict
+    | "oldhist" :: rest => answerHist { guards := false } rest dict
     | ["parse", delim, trim, keep, bytes] =>
       match delim.toNat?, unhex bytes with
       | some d, some b =>
